@@ -28,6 +28,9 @@ pub enum Sig {
     /// a conversion / validation failure merged into error type `on` (0 = the container's RecA,
     /// 1 = a field-level RecB)
     Foreign { loc: Loc, src: ForeignSrc, on: u8 },
+    /// the inner expectation, made on error type `on` (0 = the container's RecA, 1 = the RecB of a
+    /// field with `error = RecB`, which governs everything below that field)
+    On(Box<Sig>, u8),
 }
 
 impl Sig {
@@ -42,11 +45,18 @@ impl Sig {
             | Sig::Domain { loc, .. }
             | Sig::AnyAt { loc }
             | Sig::Foreign { loc, .. } => loc,
+            Sig::On(inner, _) => inner.loc(),
         }
     }
 
     /// Whether an observed report event satisfies this expectation.
     pub fn matches(&self, ev: &Event) -> bool {
+        if let Sig::On(inner, want) = self {
+            return match ev {
+                Event::Report { on, .. } | Event::Foreign { on, .. } => on == want && inner.matches(ev),
+                _ => false,
+            };
+        }
         match ev {
             Event::Report { kind, loc, .. } => {
                 if loc != self.loc() {
@@ -174,10 +184,15 @@ pub fn apply_rename_all(ident: &str, ra: Option<RenameAll>) -> String {
     }
 }
 
+/// The name of an identifier: `r#type` is the raw spelling of the identifier `type`.
+pub fn ident_name(ident: &str) -> &str {
+    ident.strip_prefix("r#").unwrap_or(ident)
+}
+
 pub fn field_key(f: &FieldSpec, ra: Option<RenameAll>) -> String {
     match &f.rename {
         Some(r) => r.clone(),
-        None => apply_rename_all(&f.ident, ra),
+        None => apply_rename_all(ident_name(&f.ident), ra),
     }
 }
 
@@ -270,9 +285,20 @@ pub fn parse_key(k: KeyTy, s: &str) -> Option<String> {
     }
 }
 
+/// What the field conversions see of their intermediate value (`ConvIn`).
+fn conv_in(x: &Doc) -> u64 {
+    match x {
+        Doc::Int(n) => *n,
+        Doc::Null => crate::probe::NONE_ARG as u64,
+        other => panic!("conversion input {other:?}"),
+    }
+}
+
 struct Ctx<'a> {
     cat: &'a Catalogue,
     out: RefOut,
+    /// the error type in force (see `Sig::On`)
+    on: u8,
     /// > 0 while inside a region the statements leave open (value of an entry
     /// whose key cannot be parsed)
     optional: u32,
@@ -285,6 +311,10 @@ fn push(mut loc: Loc, s: Step) -> Loc {
 
 impl<'a> Ctx<'a> {
     fn report(&mut self, s: Sig) {
+        let s = match s {
+            Sig::Foreign { .. } | Sig::On(..) => s,
+            other => Sig::On(Box::new(other), self.on),
+        };
         if self.optional > 0 {
             self.out.optional.push(s)
         } else {
@@ -327,7 +357,7 @@ impl<'a> Ctx<'a> {
         if ok {
             Some(v)
         } else {
-            self.report(Sig::Foreign { loc: loc.clone(), src: ForeignSrc::Validate { sum }, on: 0 });
+            self.report(Sig::Foreign { loc: loc.clone(), src: ForeignSrc::Validate { sum }, on: self.on });
             None
         }
     }
@@ -515,7 +545,13 @@ impl<'a> Ctx<'a> {
                 let f = active[ix].0;
                 present[ix] = true;
                 let kloc = push(loc.clone(), Step::Key(k.clone()));
+                // a field-level error type governs the whole value of the field
+                let outer_on = self.on;
+                if f.err_b {
+                    self.on = 1;
+                }
                 let r = self.eval(&f.ty, v, &kloc);
+                self.on = outer_on;
                 got[ix] = match r {
                     None => {
                         ok = false;
@@ -524,13 +560,13 @@ impl<'a> Ctx<'a> {
                     Some(x) => match f.conv {
                         Conv::None => Some(x),
                         Conv::From { by_ref } => {
-                            let Doc::Int(n) = x else { panic!("conversion input {x:?}") };
+                            let n = conv_in(&x);
                             let (name, add) = if by_ref { ("from_ref", FROM_REF) } else { ("from_inc", FROM_INC) };
                             self.call(UserCall::Conv { fn_name: name, arg: n as u8, ok: true });
                             Some(Doc::Int(n + add as u64))
                         }
                         Conv::TryFrom { by_ref } => {
-                            let Doc::Int(n) = x else { panic!("conversion input {x:?}") };
+                            let n = conv_in(&x);
                             let (name, add) = if by_ref { ("try_ref", TRY_REF) } else { ("try_even", TRY_EVEN) };
                             let good = n % 2 == 0;
                             self.call(UserCall::Conv { fn_name: name, arg: n as u8, ok: good });
@@ -541,7 +577,7 @@ impl<'a> Ctx<'a> {
                                     loc: kloc.clone(),
                                     src: ForeignSrc::Conv { fn_name: name.to_string(), arg: Doc::Int(n) },
                                     // first merged into the field's own error type, if it has one
-                                    on: if f.err_b { 1 } else { 0 },
+                                    on: if f.err_b { 1 } else { self.on },
                                 });
                                 ok = false;
                                 None
@@ -566,7 +602,7 @@ impl<'a> Ctx<'a> {
                         self.report(Sig::Foreign {
                             loc: loc.clone(),
                             src: ForeignSrc::Conv { fn_name: "custom_unknown_f".to_string(), arg: Doc::Str(k.clone()) },
-                            on: 0,
+                            on: self.on,
                         });
                         ok = false;
                     }
@@ -580,7 +616,7 @@ impl<'a> Ctx<'a> {
                     self.report(Sig::Foreign {
                         loc: loc.clone(),
                         src: ForeignSrc::Conv { fn_name: "custom_missing_f".to_string(), arg: Doc::Str(key.clone()) },
-                        on: 0,
+                        on: self.on,
                     });
                 } else if f.missing_fn {
                     self.call(UserCall::CustomMissing { key: key.clone(), loc: loc.clone() });
@@ -704,7 +740,7 @@ impl<'a> Ctx<'a> {
                         self.report(Sig::Foreign {
                             loc: loc.clone(),
                             src: ForeignSrc::Conv { fn_name: format!("c{i}_fn"), arg: via },
-                            on: 0,
+                            on: self.on,
                         });
                         None
                     }
@@ -720,7 +756,7 @@ impl<'a> Ctx<'a> {
 
 /// Expected outcome of `deserialize::<ty>(payload)` under a keep-going error type.
 pub fn reference(cat: &Catalogue, ty: &Ty, payload: &Doc) -> RefOut {
-    let mut cx = Ctx { cat, out: RefOut::default(), optional: 0 };
+    let mut cx = Ctx { cat, out: RefOut::default(), optional: 0, on: 0 };
     let v = cx.eval(ty, payload, &vec![]);
     let mut out = cx.out;
     debug_assert_eq!(v.is_some(), out.required.is_empty(), "reference: value iff no required report");
@@ -799,6 +835,15 @@ pub fn match_multiset<T: PartialEq + std::fmt::Debug>(
 /// Start-up self-check of the interpreter against outcomes *documented* in the
 /// book and pinned by the repository's own tests (a mismatch is a harness
 /// error, exit 2 — never a verdict).
+fn strip_on(v: &[Sig]) -> Vec<Sig> {
+    v.iter()
+        .map(|s| match s {
+            Sig::On(inner, _) => (**inner).clone(),
+            other => other.clone(),
+        })
+        .collect()
+}
+
 pub fn self_check() -> Result<(), String> {
     use mc_desc::catalogue::{tagged_enum, unit_enum};
     let mut cat = Catalogue::default();
@@ -819,7 +864,7 @@ pub fn self_check() -> Result<(), String> {
     s.deny = Deny::Default;
     let i = cat.add(Item::Struct(s));
     let r = reference(&cat, &p(Ty::Item(i)), &Doc::parse(r#"{"query":"doggo","doggo":"bork"}"#));
-    if r.required != vec![Sig::UnknownKey { loc: vec![], key: "doggo".into(), accepted: vec!["query".into()] }] {
+    if strip_on(&r.required) != vec![Sig::UnknownKey { loc: vec![], key: "doggo".into(), accepted: vec!["query".into()] }] {
         return Err(format!("book: deny_unknown_fields example: {:?}", r.required));
     }
     // tests/attributes/skip.rs: a skipped field keeps its default and its name is unknown under deny
@@ -830,7 +875,7 @@ pub fn self_check() -> Result<(), String> {
     s.deny = Deny::Default;
     let i = cat.add(Item::Struct(s));
     let r = reference(&cat, &p(Ty::Item(i)), &Doc::parse(r#"{"doggo":"bork","catto":3}"#));
-    if r.required != vec![Sig::UnknownKey { loc: vec![], key: "catto".into(), accepted: vec!["doggo".into()] }] {
+    if strip_on(&r.required) != vec![Sig::UnknownKey { loc: vec![], key: "catto".into(), accepted: vec!["doggo".into()] }] {
         return Err(format!("tests: skip + deny_unknown_fields: {:?}", r.required));
     }
     let r = reference(&cat, &p(Ty::Item(i)), &Doc::parse(r#"{"doggo":"bork"}"#));
@@ -846,18 +891,18 @@ pub fn self_check() -> Result<(), String> {
         return Err(format!("tagged enum with rename_all: {:?} / {:?}", r.value, r.required));
     }
     let r = reference(&cat, &p(Ty::Item(i)), &Doc::parse(r#"{"fa_x":1}"#));
-    if r.required != vec![Sig::Missing { loc: vec![], field: "type".into() }] {
+    if strip_on(&r.required) != vec![Sig::Missing { loc: vec![], field: "type".into() }] {
         return Err(format!("missing tag: {:?}", r.required));
     }
     // errors/json.rs tests: unknown value lists every variant in declaration order
     let i = cat.add(Item::Enum(unit_enum(3, Some(RenameAll::Lower), false)));
     let r = reference(&cat, &p(Ty::Item(i)), &Doc::s("Alpha"));
-    if r.required != vec![Sig::UnknownValue { loc: vec![], value: "Alpha".into(), accepted: vec!["alpha".into(), "betatwo".into(), "gamma".into()] }] {
+    if strip_on(&r.required) != vec![Sig::UnknownValue { loc: vec![], value: "Alpha".into(), accepted: vec!["alpha".into(), "betatwo".into(), "gamma".into()] }] {
         return Err(format!("unit enum lowercase: {:?}", r.required));
     }
     // tests/supported_value_types.rs: tuple arity, and number-range-error-messages.rs
     let r = reference(&cat, &p(Ty::Tup(vec![pu8(), pu8()])), &Doc::parse("[1,2,3]"));
-    if r.required != vec![Sig::BadLen { loc: vec![], actual: Doc::parse("[1,2,3]"), expected: 2 }] {
+    if strip_on(&r.required) != vec![Sig::BadLen { loc: vec![], actual: Doc::parse("[1,2,3]"), expected: 2 }] {
         return Err(format!("tuple arity: {:?}", r.required));
     }
     match scalar_expect(Scalar::U8, &Doc::Int(256)) {
